@@ -900,6 +900,9 @@ func c09invariantCase(c *fw.Ctx, r *rand.Rand) {
 // windows in question have no callback or store call inside them.
 func c09monotoneCase(c *fw.Ctx, r *rand.Rand) {
 	n := 20000 + r.IntN(60000)
+	if c.Flavour == "race" || runtime.GOMAXPROCS(0) == 1 {
+		n = 4000 + r.IntN(12000) // the race detector and a single P make every call far more expensive
+	}
 	bare := r.IntN(2) == 0
 	var ch *cache.Cache[int, CVal]
 	if bare {
@@ -1022,7 +1025,7 @@ func runC09(c *fw.Ctx) {
 			}
 		}
 	}
-	for i := 0; i < c.Pick(6, 80); i++ {
+	for i := 0; i < c.Pick(6, 24); i++ {
 		if !c.Begin(1<<23 + i) {
 			continue
 		}
